@@ -902,3 +902,4 @@ Qed.
 
 Lemma ob_no_shared_pointee_writes_true : ob_no_shared_pointee_writes = true. Proof. vm_compute. reflexivity. Qed.
 Lemma ob_loggers_stateless_true : ob_loggers_stateless = true. Proof. vm_compute. reflexivity. Qed.
+Lemma ob_no_unsync_package_state_true : ob_no_unsync_package_state = true. Proof. vm_compute. reflexivity. Qed.
